@@ -685,7 +685,7 @@ theorem no_mark_left {env : Env} {o : SOpts} (hc : o.contextual = true) (fuel : 
 
 /-- without a reachable discriminated union every mention is a reference to a named type, whose source is a function of
 the name: `Functional'` can fail only through a synthetic variant name (D16b) -/
-theorem functional'_of_no_union {env : Env} {o : SOpts} {roots : List RT}
+theorem functionalN_of_no_union {env : Env} {o : SOpts} {roots : List RT}
     (h : ∀ t, CReach env o roots t → ∀ s k m sm, t ≠ .disc s k m sm) : Functional' env o roots := by
   have key : ∀ rt name t, Mentions env o rt name t → CReach env o roots rt → namedTarget env o name = some t := by
     intro rt name t hm
